@@ -300,7 +300,11 @@ def r4_structure(P, rep, ctx):
 
     vs_all = [(i, v, b) for i, v, b in f.stores("__c[__k]") if _is_name_key(i, b["__k"])]
     vs = [i for i, v, b in vs_all]
-    okv = bool(vs) and bool(leaf) and f.all_hit_before(vs, edges=leaf, src=L) and all(f.hit_before(L, nodes=vs, src_edge=e) for e in leaf)
+    # "every leaf entry is stored" is asked from where an iteration first learns that the entry is a file / symlink
+    # (a later re-test of the same condition starts without the history the path-sensitive walk relies on)
+    keys_ = {t: norm(g.nodes[t].exprs[0]) for t, _ in leaf}
+    leaf_first = [(t, lab) for t, lab in leaf if not any(t2 != t and keys_[t2] == keys_[t] and t in g.reach([t2], avoid=[L]) for t2, _ in leaf)]
+    okv = bool(vs) and bool(leaf) and f.all_hit_before(vs, edges=leaf, src=L) and all(f.hit_before(L, nodes=vs, src_edge=e) for e in leaf_first)
     rep.check(okv, "C19.R4", fi.qual, "every file and symlink is recorded under its name (and only those)", fi.loc(), construct="entry store condition", message="dir_hashsums does not store the value of every file/symlink entry (or stores one for directories)")
     ok = bool(segl)
     for n in segl:
@@ -310,8 +314,11 @@ def r4_structure(P, rep, ctx):
         mk_st = [(i, v, b) for i, v, b in f.stores(f"__c[{sv}]") if norm(v) in ("dict()", "{}")]
         mks = [i for i, v, b in mk_st if f.hit_before(i, nodes=[SL]) or True]
         cvars = {norm(b["__c"]) for i, v, b in mk_st}
+        # create-if-absent and descend in one step: c = c.setdefault(seg, {})
+        cvars |= {g.nodes[i].stmt.targets[0].id for i, v, b in f.stores("__c") if isinstance(g.nodes[i].stmt, ast.Assign) and isinstance(g.nodes[i].stmt.targets[0], ast.Name)
+                  and norm(g.nodes[i].stmt.value) in (f"{g.nodes[i].stmt.targets[0].id}.setdefault({sv}, dict())", f"{g.nodes[i].stmt.targets[0].id}.setdefault({sv}, {{}})")}
         absent = [e for c_ in cvars for e in f.tests(f"{sv} not in {c_}")]
-        dsc = [i for c_ in cvars for i, v, b in f.stores(c_) if norm(v) == f"{c_}[{sv}]"] + [i for c_ in cvars for i, v, b in f.stores(c_) if norm(v) == f"{c_}.setdefault({sv}, dict())" or norm(v) == f"{c_}.setdefault({sv}, {{}})"]
+        dsc = [i for c_ in cvars for i, v, b in f.stores(c_) if norm(g.nodes[i].stmt.value) == f"{c_}[{sv}]"] + [i for c_ in cvars for i, v, b in f.stores(c_) if norm(g.nodes[i].stmt.value) in (f"{c_}.setdefault({sv}, dict())", f"{c_}.setdefault({sv}, {{}})")]
         in_loop = lambda i: SL in g.reach([i])
         mks = [i for i in mks if in_loop(i)]
         dsc = [i for i in dsc if in_loop(i)]
@@ -339,6 +346,8 @@ def r4_structure(P, rep, ctx):
         require_total(rep, ctx, "C19.R4", P.func(q))
     sub_stores = [(i, v, b) for i, v, b in f.stores("__c[__k]")]
     vals = set()
+    if any(MM.match("__c.setdefault(__k, dict())", c) is not None or MM.match("__c.setdefault(__k, {})", c) is not None for c in local_calls(fi.node)):
+        vals.add("dict()")  # sub-dict created through setdefault
     for i, v, b in sub_stores:
         xv = f.x_at(i, v)
         if norm(v) in ("dict()", "{}"):
@@ -368,5 +377,5 @@ def r4_structure(P, rep, ctx):
     okf = bool(withs)
     if okf:
         hv = norm(withs[0].stmt.items[0].optional_vars)
-        okf = bool(fhf.returns()) and all(v is not None and norm(strip_tuning(fhf.xe_at(i, v))) == f"qualified_hashsum({hv}, {fh.params[1]})" for i, v in fhf.returns())
+        okf = bool(fhf.returns()) and all(v is not None and norm(strip_tuning(fhf.xe_at(i, v))) in (f"qualified_hashsum({hv}, {fh.params[1]})", f"qualified_hashsum(open({fh.params[0]}, 'rb'), {fh.params[1]})") for i, v in fhf.returns())
     rep.check(okf, "C19.R4", fh.qual, "file_hashsum hashes the file's current bytes", fh.loc(), construct="file_hashsum body", message="file_hashsum does not open the file and hash its bytes")
